@@ -133,6 +133,12 @@ def mon_c15(cfg, steps):
         if t[0] != "exec" or s.pre is None:
             continue
         k = t[5]
+        if k == "updcfg" and s.res == "ok" and s.st is not None and t[7] != "-":
+            # an accepted protocol section replaces the oracle, including by "none": from then on nothing is posted
+            want = t[7][1:-1].split(";")[4]
+            want = None if want == "-" else unhex(want).decode("utf-8", "replace")
+            if s.st["protocol"]["oracle"] != want:
+                out.append({"step": s.idx, "what": "UpdateConfig set the oracle to %s but the contract keeps answering to %s" % (want, s.st["protocol"]["oracle"])})
         if k not in POSTING:
             continue
         oracle_pre = s.pre["protocol"]["oracle"]
@@ -521,6 +527,12 @@ def mon_c06(cfg, steps):
                 w = batches_wf(s.st)
                 if w:
                     out.append({"step": s.idx, "what": "after instantiate: " + w})
+                # the first pending batch is due one batch period after instantiation, like every later one after its opening
+                b1 = s.st["batches"].get(s.st["pending"])
+                due = int(t[1]) // 10 ** 9 + s.st["batch_period"]
+                if b1 is not None and b1["time"] != due:
+                    out.append({"step": s.idx, "what": "after instantiate at %d with batch period %d the pending batch %d is due at %s, one batch period later is %d" % (
+                        int(t[1]) // 10 ** 9, s.st["batch_period"], s.st["pending"], b1["time"], due)})
             continue
         pre = s.pre; st = s.st
         if t[0] in ("exec", "reply", "sudo") and s.res == "ok":
@@ -576,6 +588,19 @@ def mon_c17(cfg, steps):
     out = []
     for s in steps:
         t = s.optoks
+        if t[0] == "exec" and s.res == "ok" and s.pre is not None and s.st is not None and t[5] in ("withdraw", "unstake"):
+            # the open requests follow the unstakes and withdrawals: a withdrawn request is gone, an unstake adds to (or
+            # opens) exactly the sender's request in the pending batch, and nobody else's requests move
+            who = unhex(t[3]).decode("utf-8", "replace")
+            pre = dict(((b, u), a) for (b, u, a) in s.pre["reqs"]); post = dict(((b, u), a) for (b, u, a) in s.st["reqs"])
+            if t[5] == "withdraw":
+                exp = dict(pre); exp.pop((int(t[6]), who), None)
+            else:
+                paid = sum(int(x.split(":")[1]) for x in t[4][1:-1].split(",") if x)
+                exp = dict(pre); k = (s.pre["pending"], who); exp[k] = exp.get(k, 0) + paid
+            if post != exp:
+                diff = sorted(set(post.items()) ^ set(exp.items()))[:4]
+                out.append({"step": s.idx, "what": "after %s by %s the open requests differ from the expected set: %r" % (t[5], who, diff)})
         if t[0] != "query" or s.res != "ok" or s.pre is None:
             continue
         st = s.pre; kind = t[1]
@@ -662,6 +687,15 @@ def mon_c13(cfg, steps):
         if t[0] == "tinst":
             if s.res == "ok":
                 cur = tstate(s)
+                # tinst <time> <sender> <admin|-> <trader|-> <routes>: an omitted admin / trader is the instantiating account
+                snd = unhex(t[2]).decode("utf-8", "replace")
+                want_admin = snd if t[3] == "-" else unhex(t[3]).decode("utf-8", "replace")
+                want_trader = snd if t[4] == "-" else unhex(t[4]).decode("utf-8", "replace")
+                if cur and cur.get("trader") != want_trader:
+                    out.append({"step": s.idx, "what": "instantiate by %s with trader %s made %s the trader (swaps are executed only for the trader)" % (
+                        snd, "omitted" if t[4] == "-" else want_trader, cur.get("trader"))})
+                if cur and cur.get("admin") != want_admin:
+                    out.append({"step": s.idx, "what": "instantiate by %s with admin %s made %s the admin" % (snd, "omitted" if t[3] == "-" else want_admin, cur.get("admin"))})
             continue
         if t[0] != "texec":
             continue
@@ -1396,6 +1430,11 @@ def mon_migrate_roles(cfg, steps):
     return [f for f in mon_c18(cfg, steps) if ("config" in f["what"]) and any(k in f["what"] for k in keys)]
 
 
+def mon_migrate_flags(cfg, steps):
+    """C10 across an upgrade: the halted flag is the same before and after a migration (only ResumeContract releases it)"""
+    return [f for f in mon_c18(cfg, steps) if "config" in f["what"] and "stopped" in f["what"]]
+
+
 def with_migration(mon):
     return lambda cfg, steps: mon(cfg, steps) + mon_migrate_ledger(cfg, steps)
 
@@ -1406,3 +1445,5 @@ MONITORS["C07"] = with_migration(mon_c07)
 MONITORS["C01"] = (lambda cfg, steps: mon_migrate_ledger(cfg, steps) + mon_state_query(cfg, steps))
 MONITORS["C03"] = (lambda cfg, steps: mon_c03(cfg, steps) + mon_state_query(cfg, steps))
 MONITORS["C09"] = (lambda cfg, steps: mon_c09(cfg, steps) + mon_migrate_roles(cfg, steps))
+MONITORS["C08"] = (lambda cfg, steps: mon_c08(cfg, steps) + mon_migrate_roles(cfg, steps))
+MONITORS["C10"] = (lambda cfg, steps: mon_c10(cfg, steps) + mon_migrate_flags(cfg, steps))
